@@ -394,6 +394,30 @@ def check_smooth_program(prog, reckind, seed):
         if r is not None and not isinstance(r, str):
             evals += 1
             tolcmp(r, Jf.dot(v), 'jac_vec@' + ptname)
+        if len(oshape) <= 1 and ptname == 'other':
+            # Taylor expansion of every Jacobian entry along a curve (D=3, two directions with different base points),
+            # reference: forward propagation alone (2D-coefficient trick of amc/adjoint.py with v = e_j)
+            D, Pn = 3, 2
+            xc = PR.curve(seed + 29, D, Pn, pts=(pi, 1, 2))
+            if PR.in_domain(prog, [xc[0, p] for p in range(Pn)]) is None:
+                r = call(fails, 'jacobian_utpm@' + ptname, lambda: fresh(prog, reckind, seed).jacobian(UTPM(xc.copy())))
+                if r is not None and not isinstance(r, str):
+                    evals += 1
+                    try:
+                        ref = np.zeros((D, Pn, M, NX))
+                        for j in range(NX):
+                            vdir = np.zeros_like(xc)
+                            vdir[0, :, j] = 1.0
+                            Jv, _ = AD.jv_forward(prog, xc, vdir)
+                            ref[:, :, :, j] = np.real(Jv).reshape(D, Pn, M)
+                        got = r.data.reshape(D, Pn, M, NX) if isinstance(r, UTPM) and r.data.size == ref.size else None
+                        if got is None:
+                            fails.append(('jacobian_utpm@' + ptname, {'reason': 'shape', 'got': list(getattr(getattr(r, 'data', None), 'shape', []))}))
+                        else:
+                            tolcmp(got, ref, 'jacobian_utpm@' + ptname)
+                            keys.append('%s|%s|%s|jacobian_utpm' % (PR.prog_str(prog), reckind, ptname))
+                    except AD.Outcome:
+                        pass
         if scalar:
             r = call(fails, 'gradient@' + ptname, lambda: fresh(prog, reckind, seed).gradient(pt))
             if r is not None and not isinstance(r, str):
